@@ -101,6 +101,18 @@ def rule_grad(repo: Repo, rep: Report) -> int:
                 rep.violation("GRAD", f, f"{prefix}{unparse(node)[:80]}", f"{how} writes into the storage of the input `{sig}`: the caller's tensor (an encoder output saved for backward, or a leaf) is modified in place", node=node)
             else:
                 rep.violation("GRAD", f, f"{prefix}{unparse(node)[:80]}", f"{how} modifies a tensor that `{unparse(site)[:60]}` (line {getattr(site, 'lineno', '?')}) saved for the backward pass: backward() raises 'modified by an inplace operation'", node=node)
+        # .view() of the incoming tensor (or of a plain second name for it) needs a contiguous layout: a permuted or
+        # channels_last latent raises RuntimeError in forward, and no gradient reaches the encoder; reshape copies when needed
+        in_names = {sig.split(".")[0].split("[")[0]}
+        for st_ in ast.walk(fi.node):
+            if isinstance(st_, ast.Assign) and len(st_.targets) == 1 and isinstance(st_.targets[0], ast.Name) and isinstance(st_.value, ast.Name) and st_.value.id in in_names:
+                in_names.add(st_.targets[0].id)
+        for c_ in ast.walk(fi.node):
+            if isinstance(c_, ast.Call) and isinstance(c_.func, ast.Attribute) and c_.func.attr == "view" and isinstance(c_.func.value, ast.Name) and c_.func.value.id in in_names and c_.args and not (len(c_.args) == 1 and isinstance(c_.args[0], ast.Attribute) and unparse(c_.args[0]).startswith("torch.")):
+                if id(c_) in done:
+                    continue
+                done.add(id(c_))
+                rep.violation("GRAD", fi, f"{prefix}{unparse(c_)[:80]}", f"`.view(...)` of the incoming tensor `{c_.func.value.id}` requires a contiguous layout: for a permuted / channels_last / transposed latent forward raises RuntimeError, so the pipeline is not differentiable for that input (reshape returns a view when it can and copies when it must)", node=c_)
         for node, f in v.narrowing:
             rep.violation("GRAD", f, f"{prefix}{unparse(node)[:80]}", "the signal itself is cast to a fixed single-precision dtype: a float64 / complex128 input is rounded to float32 on the way, the output has another precision than the input, and the gradient no longer matches finite differences taken in the input's precision", node=node)
         for node, f in v.unguarded_div:
